@@ -592,10 +592,15 @@ def run(tier, seed):
     ev2, f2 = sampled_case(seed)
     run.bounded.append(dict(name="float: zoh/foh discrete models vs solve_ivp of the continuous model under the hold", evaluations=ev2,
                             failures=0 if f2 is None else 1, label="bounded (never counted as proved)"))
-    ev3, f3 = float_sweep(report.REPO, quick=(tier == "quick"))
+    known = {k_["obligation"]: k_ for k_ in run.known if k_.get("status") == "open"}
+    stats = {}
+    ev3, f3 = float_sweep(report.REPO, quick=(tier == "quick"), known=tuple(known), stats=stats)
     run.bounded.append(dict(name="float: real expmint/getEPQ1/getEPQ2/getEPQ/getEPQ_pow with their own norm-based branch selection vs 100-digit Taylor sums, "
-                                 "5 matrices x %d steps" % (8 if tier == "quick" else 40), evaluations=ev3, failures=0 if f3 is None else 1,
+                                 "5 matrices x %d steps + 4 stiff matrices (slow pole 1e-3..1e-7, soft spring) at ||A h||_1 on both sides of every switch" % (8 if tier == "quick" else 40),
+                            evaluations=ev3, failures=0 if f3 is None else 1, inside_known_finding_region=len(stats.get("d11_hits", [])),
                             label="bounded (never counted as proved)"))
+    if "expmint.I2-direct-solution" in known:
+        run.known_finding(known["expmint.I2-direct-solution"], bool(stats.get("d11_hits")))
     failed = [v for v in run.verdicts if v.status == "failed"]
     if failed:
         v = failed[0]
@@ -611,7 +616,29 @@ def run(tier, seed):
     return run.finish()
 
 
-def float_sweep(repo, quick=True):
+def stiff_matrices():
+    """stiff plants: one slow pole (1e-3 .. 1e-7) next to fast ones, well-conditioned eigenvectors; [[-C, -K], [I, 0]] with a soft spring"""
+    rng = np.random.RandomState(77)
+    T = np.eye(5) + 0.25 * rng.randn(5, 5)
+    out = {}
+    for slow in (1e-3, 1e-5, 1e-7):
+        lam = -np.array([slow, 0.7, 1.3, 2.1, 3.0])
+        out["stiff, slow pole %g" % slow] = (T * lam) @ np.linalg.inv(T)
+    K = np.diag([1e-6, 4.0]); C = np.diag([0.02, 0.3])
+    out["second-order form with a soft spring"] = np.block([[-C, -K], [np.eye(2), np.zeros((2, 2))]])
+    return out
+
+
+def in_d11_region(fname, order, A, h):
+    """known finding D11: the I2 'direct solution' route of expmint (Pade-13 branch) applies the inverse of A h twice - for an ill-conditioned A h the second integral
+    loses ~eps*cond^2.  Affects expmint(geti2=True) [I2] and getEPQ1(order=1) [P, Q] once the Pade-13 branch is taken; getEPQ switches to getEPQ2 there and is exact"""
+    if not (fname == "expmint" or (fname == "getEPQ1" and order == 1)):
+        return False
+    Ah = A * h
+    return abs(Ah).sum(axis=0).max() >= 1.0 and np.linalg.cond(Ah, 1) >= 1e3
+
+
+def float_sweep(repo, quick=True, known=(), stats=None):
     """bounded: the REAL float code with its own (unforced) branch selection against 100-digit Taylor sums, h over 4 decades.
     Returns (evaluations, first failure or None)."""
     import mpmath
@@ -621,11 +648,15 @@ def float_sweep(repo, quick=True):
     mpmath.mp.dps = 100
     ev = 0
     hs = [1e-3, 0.02, 0.11, 0.3, 0.7, 1.3, 2.9, 7.0] if quick else list(np.logspace(-4, 1.2, 40))
-    for matname, Jm in MATS.items():
-        A = np.array([[float(SCALE * x) for x in r] for r in Jm])
+    allm = [(k_, np.array([[float(SCALE * x) for x in r] for r in Jm]), None) for k_, Jm in MATS.items()]
+    for k_, A_ in stiff_matrices().items():
+        nr_ = abs(A_).sum(axis=0).max()
+        # steps placed by ||A h||_1 on both sides of every switch of expmint / getEPQ
+        allm.append((k_, A_, [t_ / nr_ for t_ in ((0.3, 1.5, 2.05, 2.2, 4.0, 5.6, 20.0) if quick else (0.01, 0.3, 0.9, 1.5, 2.05, 2.2, 3.0, 4.0, 5.0, 5.6, 8.0, 20.0, 60.0))]))
+    for matname, A, hs_own in allm:
         n = A.shape[0]
         Amp = mpmath.matrix(A.tolist())
-        for h in hs:
+        for h in (hs_own or hs):
             X = mpmath.eye(n)
             E = mpmath.zeros(n); I1 = mpmath.zeros(n); I2 = mpmath.zeros(n)
             f = mpmath.mpf(1)
@@ -667,6 +698,11 @@ def float_sweep(repo, quick=True):
                         continue
                     tol = 1e-9 * max(abs(w_).max(), abs(Et).max() * h * (h if (lab == "Q/I2" and nm == "expmint") else 1.0))
                     if not np.all(np.isfinite(g)) or abs(np.asarray(g) - w_).max() > tol:
+                        fname_, order_ = nm.split("(")[0], (1 if nm.endswith("1)") else 0)
+                        if "expmint.I2-direct-solution" in known and in_d11_region(fname_, order_, A, h) and not (fname_ == "expmint" and lab != "Q/I2") and lab != "E":
+                            if stats is not None:
+                                stats.setdefault("d11_hits", []).append(dict(function=nm, output=lab, matrix=matname, h=h, rel_error=float(abs(np.asarray(g) - w_).max() / abs(w_).max())))
+                            continue
                         return ev, dict(function=nm, output=lab, A=A.tolist(), h=h, max_abs_error=float(abs(np.asarray(g) - w_).max()),
                                         tolerance=float(tol), what="pyyeti.expmint.%s differs from the 100-digit Taylor sum for A=%s h=%g (%s)" % (nm, matname, h, lab))
     return ev, None
